@@ -55,10 +55,15 @@ class Ctx:
         if detail is not None:
             rec["detail"] = detail
         c = case if case is not None else self.case
-        if isinstance(c, dict) and isinstance(c.get("spec"), dict):
+        if isinstance(c, dict):
             from .zoo import spec_classes
 
-            rec["classes"] = sorted(spec_classes(c["spec"]))
+            cl = set()
+            for k in ("spec", "left", "right"):
+                if isinstance(c.get(k), dict) and "cls" in c[k]:
+                    cl |= spec_classes(c[k])
+            if cl:
+                rec["classes"] = sorted(cl)
         k = findings.match(rec, self._known)
         rec["known"] = k
         fp = fingerprint(rec) + f"#{k}"
